@@ -15,10 +15,12 @@ _get_from_identity_map_`, `Query.for_update, get, first, __getitem__, _actual_fe
 
 Two groups of harnesses.
 
-E-harnesses (`sqlite_lk0..3`, `pg_lk0..3`; one per lookup style so that they run in parallel).  Symbolic: the option
+E-harnesses (`sqlite_lk0..3_ro/_wr`, `pg_lk0..3`; one per lookup style - and per read-only/writing session for
+SQLite - so that they run in parallel).  Symbolic: the option
 flags `fu` (locking lookup or plain lookup), `nw` (nowait), `sk` (skip_locked), the session flags `ser`
 (serializable), `opt` (optimistic), `imm` (immediate), `wr` (the session writes the object: `o.a = o.a + 1`), `mid`
-(0 nothing / 1 an explicit commit() between the lookup and the write), `pre` (0 nothing / 1 a plain `T.get(id=1)`
+(0 nothing / 1 an explicit commit() between the lookup and the write / 2 the body raises at its end, so the session
+rolls back), `pre` (0 nothing / 1 a plain `T.get(id=1)`
 before the lookup, so the object is cached but NOT locked / 2 the same lookup without for_update before it, so
 `cache.query_results` is warm) and, SQLite only, `rival` (a second session run in another thread right after the
 lookup while the first is still open: 0 none / 1 optimistic writer / 2 non-optimistic writer / 3 get_for_update
@@ -53,9 +55,11 @@ Reference statement (written from the property / documentation, functions `_judg
      after the first session ended a writer in another thread runs to completion;
   L5 the object returned by a locking lookup is in `cache.for_update`, the one returned by a plain lookup is not;
      after an explicit commit() `cache.for_update` is empty (the locks are gone with the transaction);
-  L6 the session's UPDATE carries the optimistic criterion (`AND "a" = ?`: the value it read) exactly when the
-     session is optimistic and the object is not locked at that moment; in particular whenever a rival committed a
-     write while the first session was open, the first session's UPDATE is conditional (no silent lost update);
+  L6 the session's UPDATE carries no optimistic criterion when the object is locked at that moment (design: "updated
+     without optimistic criteria") and does carry it (`AND "a" = ?`: the value it read) when the session is
+     optimistic (and not serializable) and the object is not locked (nothing is demanded for unlocked objects of
+     serializable / non-optimistic sessions: those hold a transaction from their first read); in particular whenever a
+     rival committed a write while the first session was open, the first session's UPDATE is conditional;
   L7 SQLite text never contains FOR UPDATE (SQLite has no such syntax).
  PostgreSQL
   P1 the SELECT of a locking lookup ends in exactly `FOR UPDATE`, `FOR UPDATE NOWAIT` or `FOR UPDATE SKIP LOCKED` as
@@ -84,7 +88,7 @@ from engine import fakedb as F
 
 THOROUGH = os.environ.get('C35_THOROUGH') == '1'
 PRE_MAX = 4 if THOROUGH else 2          # thorough: pre 3 = plain select of all rows, 4 = a locking lookup of another style first
-MID_MAX = 3 if THOROUGH else 1          # thorough: mid 2 = flush() after the write and a second lookup, 3 = commit() then the lookup again
+MID_MAX = 4 if THOROUGH else 2          # thorough: mid 3 = flush() after the write and a second lookup, 4 = commit() then the lookup again
 RIVAL_MAX = 3
 
 rec = None
@@ -125,6 +129,10 @@ def setup():
     if rec is not None: return
     from pony.orm import core
     core.time = lambda: 0.0
+    mutant = os.environ.get('C35_MUTANT')         # canary runs only (checks/h_c35_canary.py); checks/c35.py removes it
+    if mutant:
+        from checks import h_c35_canary
+        h_c35_canary.apply(mutant)
     rec = SnapRecorder()
     DBS['sqlite'] = F.make_database('sqlite-file', rec)
     DBS['pg'] = F.make_database('postgres', rec)
@@ -132,11 +140,22 @@ def setup():
         for lk in range(4):
             for fu in (False, True):
                 r = _run(kind, lk, fu, False, False, False, True, False, True, 0, 2, 0)
-                assert r, (kind, lk, fu, LAST.get('why'), rec.dump())
+                assert r or mutant, (kind, lk, fu, LAST.get('why'), rec.dump())
+
+
+def _cold(db):
+    """Every explored path starts from the same cache state (pony keeps translators and SQL text per program location /
+    per entity across sessions, and a translator remembers having built a FOR UPDATE statement): otherwise the outcome
+    of a path could depend on which paths CrossHair happened to explore before it."""
+    db._translator_cache.clear(); db._constructed_sql_cache.clear(); db._insert_cache.clear()
+    T = db.T
+    for name in ('_find_sql_cache_', '_load_sql_cache_', '_batchload_sql_cache_', '_insert_sql_cache_', '_update_sql_cache_', '_delete_sql_cache_'):
+        getattr(T, name).clear()
 
 
 def _reset(kind):
     db = DBS[kind]
+    _cold(db)
     pool = db.provider.pool
     pool.con = None
     rec.reset(responder=_responder)
@@ -205,6 +224,10 @@ def _run_rival(db, style):
     return out[0] if len(out) == 1 else 'odd %r' % (out,)
 
 
+class BodyError(Exception):
+    """mid 2: the session body raises after its work (the session must roll back); carries the observations."""
+
+
 def _program(db, lk, fu, nw, sk, ser, opt, imm, wr, mid, pre, rival):
     """The first session.  Returns the observations the judges need (no pony object leaves this function)."""
     from pony.orm import db_session, commit, flush, select
@@ -227,22 +250,25 @@ def _program(db, lk, fu, nw, sk, ser, opt, imm, wr, mid, pre, rival):
         obs['got'] = o is not None
         obs['in_fu'] = o in cache.for_update
         if rival: obs['rival'] = _run_rival(db, rival)
-        if mid == 1 or mid == 3:
+        if mid == 1 or mid == 4:
             commit()
             obs['in_fu_after_commit'] = (o in cache.for_update, len(cache.for_update))
-            if mid == 3:
+            if mid == 4:
                 obs['marks']['lookup2'] = rec.n
                 o = _lookup(T, lk, fu, nw, sk)
                 obs['marks']['lookup2_end'] = rec.n
                 obs['in_fu2'] = o in cache.for_update
         if wr:
             o.a = o.a + 1
-            if mid == 2:
+            if mid == 3:
                 flush()
                 obs['marks']['lookup2'] = rec.n
                 o2 = _lookup(T, lk, fu, nw, sk)
                 obs['marks']['lookup2_end'] = rec.n
                 obs['in_fu2'] = o2 in cache.for_update
+        if mid == 2:
+            obs['raised'] = True
+            raise BodyError(obs)
     return obs
 
 
@@ -268,10 +294,10 @@ def _tx_open_events(events, n, opener):
 
 def _must_query(window, fu, mid, pre):
     """L2: a locking lookup must reach the database unless the object is already locked in the current transaction
-    (then the cache may answer).  window 0 = the lookup, 1 = the repeated lookup of mid 2 (after flush(): still locked
-    by the first one) / mid 3 (after commit(): the lock is gone)."""
+    (then the cache may answer).  window 0 = the lookup, 1 = the repeated lookup of mid 3 (after flush(): still locked
+    by the first one) / mid 4 (after commit(): the lock is gone)."""
     if not fu: return False
-    return pre != 4 if window == 0 else mid == 3
+    return pre != 4 if window == 0 else mid == 4
 
 
 def _judge_common(obs, why, fu, nw, sk, opt, ser, wr, mid, pre, updates, crit_text):
@@ -284,17 +310,20 @@ def _judge_common(obs, why, fu, nw, sk, opt, ser, wr, mid, pre, updates, crit_te
     # L5 / P4
     locked0 = fu or pre == 4          # (pre 4, thorough tier: a locking lookup of another style came first)
     if obs['in_fu'] != locked0: why.append('object in cache.for_update = %r, locked by a lookup = %r' % (obs['in_fu'], locked0))
-    if mid in (1, 3) and obs['in_fu_after_commit'] != (False, 0):
+    if mid in (1, 4) and obs['in_fu_after_commit'] != (False, 0):
         why.append('cache.for_update after commit(): %r' % (obs['in_fu_after_commit'],))
-    locked_at_write = False if mid == 1 else (fu if mid == 3 else locked0)
+    locked_at_write = False if mid == 1 else (fu if mid == 4 else locked0)
     if 'in_fu2' in obs and obs['in_fu2'] != locked_at_write: why.append('second lookup: object in cache.for_update = %r' % (obs['in_fu2'],))
     # L6 / P5
-    if wr:
+    if mid == 2:
+        if updates: why.append('UPDATE sent although the body raised before any flush')
+    elif wr:
         if len(updates) != 1: why.append('%d UPDATE statements' % len(updates))
         else:
-            want = (opt and not ser) and not locked_at_write
             has = crit_text in updates[0].detail
-            if has != want: why.append('UPDATE optimistic criterion present=%r, expected %r: %s' % (has, want, updates[0].detail))
+            if locked_at_write and has: why.append('L6 UPDATE of a locked object carries optimistic criteria: %s' % updates[0].detail)
+            if (opt and not ser) and not locked_at_write and not has:
+                why.append('L6 UPDATE of an unlocked object in an optimistic session is unconditional: %s' % updates[0].detail)
     elif updates: why.append('UPDATE without a write')
     return True
 
@@ -312,6 +341,7 @@ def _judge_sqlite(db, obs, why, lk, fu, nw, sk, ser, opt, imm, wr, mid, pre, riv
     if not _judge_common(obs, why, fu, nw, sk, opt, ser, wr, mid, pre, updates, 'AND "a" = ?'):
         if fu and nw and sk and not sent_nothing: why.append('something was sent for the rejected lookup')
         return _locks_balanced(db, why)
+    if mid == 2 and [e for e in main if e.op == 'commit']: why.append('commit although the body raised')
     session_tx = ser or imm or not opt
     begin = lambda s: s.strip().upper() == 'BEGIN IMMEDIATE TRANSACTION'
     windows = [(m['lookup'], m['lookup_end'])] + ([(m['lookup2'], m['lookup2_end'])] if 'lookup2' in m else [])
@@ -351,7 +381,7 @@ def _judge_sqlite(db, obs, why, lk, fu, nw, sk, ser, opt, imm, wr, mid, pre, riv
         else:
             if obs['rival'] != 'done': why.append('L4 rival while nothing is locked: %s' % obs['rival'])
             committed = [e for e in other if e.op == 'commit']
-            if obs['rival'] == 'done' and wr and committed:
+            if obs['rival'] == 'done' and wr and mid != 2 and committed:
                 if not (updates and 'AND "a" = ?' in updates[0].detail): why.append('L6 rival committed a write, the first session overwrites it unconditionally')
     return _locks_balanced(db, why)
 
@@ -380,6 +410,7 @@ def _judge_pg(db, obs, why, lk, fu, nw, sk, ser, opt, imm, wr, mid, pre):
     if not _judge_common(obs, why, fu, nw, sk, opt, ser, wr, mid, pre, updates, 'AND "a" = %(p3)s'):
         if fu and nw and sk and m['lookup_end'] != m['lookup']: why.append('something was sent for the rejected lookup')
         return not why
+    if mid == 2 and [e for e in main if e.op == 'commit']: why.append('commit although the body raised')
     session_tx = ser or imm or not opt
     windows = [(m['lookup'], m['lookup_end'])] + ([(m['lookup2'], m['lookup2_end'])] if 'lookup2' in m else [])
     want_tail = 'FOR UPDATE' + (' NOWAIT' if nw else '') + (' SKIP LOCKED' if sk else '')
@@ -412,12 +443,18 @@ def _judge_pg(db, obs, why, lk, fu, nw, sk, ser, opt, imm, wr, mid, pre):
     return not why
 
 
+COUNT = [0]          # concrete runs so far in this process (development: number of explored paths)
+
+
 def _run(kind, lk, fu, nw, sk, ser, opt, imm, wr, mid, pre, rival):
+    COUNT[0] += 1
     db = _reset(kind)
     why = []
     LAST.clear(); LAST.update(why=why)
     try:
         obs = _program(db, lk, fu, nw, sk, ser, opt, imm, wr, mid, pre, rival)
+    except BodyError as e:
+        obs = e.args[0]
     except Exception as e:
         F.reset_session_state(db)
         # "wait or FAIL": an unlocked optimistic session that meets a value a rival legitimately committed in the meantime may
@@ -459,7 +496,7 @@ def _e(kind, lk, fu, nw, sk, ser, opt, imm, wr, mid, pre, rival=0):
     opt = True if opt else False
     imm = True if imm else False
     wr = True if wr else False
-    mid = 0 if mid == 0 else (1 if mid == 1 else (2 if mid == 2 else 3))
+    mid = 0 if mid == 0 else (1 if mid == 1 else (2 if mid == 2 else (3 if mid == 3 else 4)))
     pre = 0 if pre == 0 else (1 if pre == 1 else (2 if pre == 2 else (3 if pre == 3 else 4)))
     rival = 0 if rival == 0 else (1 if rival == 1 else (2 if rival == 2 else 3))
     with NoTracing():
@@ -468,45 +505,88 @@ def _e(kind, lk, fu, nw, sk, ser, opt, imm, wr, mid, pre, rival=0):
 
 E_HARNESSES = []
 
+# One explicit function per dialect x lookup style (x read-only / writing session for SQLite, where the rival dimension
+# makes the product four times larger), so that they run in parallel worker processes.
 
-def sqlite_lk0(fu: bool, nw: bool, sk: bool, ser: bool, opt: bool, imm: bool, wr: bool, mid: int, pre: int, rival: int) -> bool:
+
+def sqlite_lk0_ro(fu: bool, nw: bool, sk: bool, ser: bool, opt: bool, imm: bool, mid: int, pre: int, rival: int) -> bool:
     """
     pre: fu or not (nw or sk)
     pre: 0 <= mid <= MID_MAX and 0 <= pre <= PRE_MAX and 0 <= rival <= RIVAL_MAX
     post: _
     """
-    return ok(_e('sqlite', 0, fu, nw, sk, ser, opt, imm, wr, mid, pre, rival))
-E_HARNESSES.append('sqlite_lk0')
+    return ok(_e('sqlite', 0, fu, nw, sk, ser, opt, imm, False, mid, pre, rival))
+E_HARNESSES.append('sqlite_lk0_ro')
 
 
-def sqlite_lk1(fu: bool, nw: bool, sk: bool, ser: bool, opt: bool, imm: bool, wr: bool, mid: int, pre: int, rival: int) -> bool:
+def sqlite_lk0_wr(fu: bool, nw: bool, sk: bool, ser: bool, opt: bool, imm: bool, mid: int, pre: int, rival: int) -> bool:
     """
     pre: fu or not (nw or sk)
     pre: 0 <= mid <= MID_MAX and 0 <= pre <= PRE_MAX and 0 <= rival <= RIVAL_MAX
     post: _
     """
-    return ok(_e('sqlite', 1, fu, nw, sk, ser, opt, imm, wr, mid, pre, rival))
-E_HARNESSES.append('sqlite_lk1')
+    return ok(_e('sqlite', 0, fu, nw, sk, ser, opt, imm, True, mid, pre, rival))
+E_HARNESSES.append('sqlite_lk0_wr')
 
 
-def sqlite_lk2(fu: bool, nw: bool, sk: bool, ser: bool, opt: bool, imm: bool, wr: bool, mid: int, pre: int, rival: int) -> bool:
+def sqlite_lk1_ro(fu: bool, nw: bool, sk: bool, ser: bool, opt: bool, imm: bool, mid: int, pre: int, rival: int) -> bool:
     """
     pre: fu or not (nw or sk)
     pre: 0 <= mid <= MID_MAX and 0 <= pre <= PRE_MAX and 0 <= rival <= RIVAL_MAX
     post: _
     """
-    return ok(_e('sqlite', 2, fu, nw, sk, ser, opt, imm, wr, mid, pre, rival))
-E_HARNESSES.append('sqlite_lk2')
+    return ok(_e('sqlite', 1, fu, nw, sk, ser, opt, imm, False, mid, pre, rival))
+E_HARNESSES.append('sqlite_lk1_ro')
 
 
-def sqlite_lk3(fu: bool, nw: bool, sk: bool, ser: bool, opt: bool, imm: bool, wr: bool, mid: int, pre: int, rival: int) -> bool:
+def sqlite_lk1_wr(fu: bool, nw: bool, sk: bool, ser: bool, opt: bool, imm: bool, mid: int, pre: int, rival: int) -> bool:
     """
     pre: fu or not (nw or sk)
     pre: 0 <= mid <= MID_MAX and 0 <= pre <= PRE_MAX and 0 <= rival <= RIVAL_MAX
     post: _
     """
-    return ok(_e('sqlite', 3, fu, nw, sk, ser, opt, imm, wr, mid, pre, rival))
-E_HARNESSES.append('sqlite_lk3')
+    return ok(_e('sqlite', 1, fu, nw, sk, ser, opt, imm, True, mid, pre, rival))
+E_HARNESSES.append('sqlite_lk1_wr')
+
+
+def sqlite_lk2_ro(fu: bool, nw: bool, sk: bool, ser: bool, opt: bool, imm: bool, mid: int, pre: int, rival: int) -> bool:
+    """
+    pre: fu or not (nw or sk)
+    pre: 0 <= mid <= MID_MAX and 0 <= pre <= PRE_MAX and 0 <= rival <= RIVAL_MAX
+    post: _
+    """
+    return ok(_e('sqlite', 2, fu, nw, sk, ser, opt, imm, False, mid, pre, rival))
+E_HARNESSES.append('sqlite_lk2_ro')
+
+
+def sqlite_lk2_wr(fu: bool, nw: bool, sk: bool, ser: bool, opt: bool, imm: bool, mid: int, pre: int, rival: int) -> bool:
+    """
+    pre: fu or not (nw or sk)
+    pre: 0 <= mid <= MID_MAX and 0 <= pre <= PRE_MAX and 0 <= rival <= RIVAL_MAX
+    post: _
+    """
+    return ok(_e('sqlite', 2, fu, nw, sk, ser, opt, imm, True, mid, pre, rival))
+E_HARNESSES.append('sqlite_lk2_wr')
+
+
+def sqlite_lk3_ro(fu: bool, nw: bool, sk: bool, ser: bool, opt: bool, imm: bool, mid: int, pre: int, rival: int) -> bool:
+    """
+    pre: fu or not (nw or sk)
+    pre: 0 <= mid <= MID_MAX and 0 <= pre <= PRE_MAX and 0 <= rival <= RIVAL_MAX
+    post: _
+    """
+    return ok(_e('sqlite', 3, fu, nw, sk, ser, opt, imm, False, mid, pre, rival))
+E_HARNESSES.append('sqlite_lk3_ro')
+
+
+def sqlite_lk3_wr(fu: bool, nw: bool, sk: bool, ser: bool, opt: bool, imm: bool, mid: int, pre: int, rival: int) -> bool:
+    """
+    pre: fu or not (nw or sk)
+    pre: 0 <= mid <= MID_MAX and 0 <= pre <= PRE_MAX and 0 <= rival <= RIVAL_MAX
+    post: _
+    """
+    return ok(_e('sqlite', 3, fu, nw, sk, ser, opt, imm, True, mid, pre, rival))
+E_HARNESSES.append('sqlite_lk3_wr')
 
 
 def pg_lk0(fu: bool, nw: bool, sk: bool, ser: bool, opt: bool, imm: bool, wr: bool, mid: int, pre: int) -> bool:
@@ -547,3 +627,126 @@ def pg_lk3(fu: bool, nw: bool, sk: bool, ser: bool, opt: bool, imm: bool, wr: bo
     """
     return ok(_e('pg', 3, fu, nw, sk, ser, opt, imm, wr, mid, pre))
 E_HARNESSES.append('pg_lk3')
+
+
+# == K-harnesses: the small decision functions, fully traced with symbolic booleans ==========================================
+K_HARNESSES = []
+
+
+def _k_session(kind, ser, opt, imm, first, lockreq, mid_commit):
+    """A real session over the fakes that sends three statements through the real Database._exec_sql:
+    [S1 (only if `first`)]  S2 (after `cache.immediate = True` if `lockreq`: exactly what _find_in_db_ / Query._actual_fetch do
+    for a locking lookup - that they do it is what the E-harnesses decide)  [commit()]  W (start_transaction=True as
+    Entity._save_updated_ sends its UPDATE).  Returns the call numbers of the three statements."""
+    from pony.orm import db_session, commit
+    db = _reset(kind)
+    marks = {}
+    with db_session(serializable=ser, optimistic=opt, immediate=imm):
+        if first:
+            db._exec_sql('SELECT 1')
+            marks['s1'] = rec.n
+        cache = db._get_cache()
+        if lockreq: cache.immediate = True
+        db._exec_sql('SELECT 2')
+        marks['s2'] = rec.n
+        if mid_commit: commit()
+        db._exec_sql('UPDATE W', None, False, True)
+        marks['w'] = rec.n
+    return db, marks
+
+
+def k_sqlite_mode(ser: bool, opt: bool, imm: bool, first: bool, lockreq: bool, mid_commit: bool) -> bool:
+    """
+    post: _
+    """
+    try:
+        db, m = _k_session('sqlite', ser, opt, imm, first, lockreq, mid_commit)
+    except Exception:
+        F.reset_session_state(DBS['sqlite'])
+        return ok(False)
+    why = []
+    LAST.clear(); LAST.update(why=why)
+    main = [e for e in rec.log if e.con is not None]
+    begin = lambda s: s.strip().upper() == 'BEGIN IMMEDIATE TRANSACTION'
+    session_tx = ser or imm or not opt
+    need = {'s1': session_tx, 's2': session_tx or lockreq, 'w': True}
+    for k in m:
+        if not need[k]: continue
+        n = m[k]
+        held, _, in_tx, _ = rec.snap[n]
+        if _tx_open_events(main, n, begin) is None or not in_tx: why.append('%s outside an immediate transaction' % k)
+        if not held: why.append('lock not held at %s' % k)
+    open_since = None
+    for e in main:
+        held = rec.snap[e.n][0]
+        if e.op == 'execute' and begin(e.detail or ''):
+            if not held: why.append('BEGIN #%d without the lock' % e.n)
+            open_since = e.n
+        elif open_since is not None:
+            if not held: why.append('lock not held at #%d' % e.n)
+            if e.op in ('commit', 'rollback'): open_since = None
+    prov = db.provider
+    tl, pl = prov.transaction_lock, prov.pre_transaction_lock
+    if tl.locked() or pl.locked(): why.append('lock left held')
+    if tl.bad_release or tl.acquired != tl.released or tl.blocked: why.append('lock accounting')
+    if not [e for e in main if e.op == 'commit']: why.append('no commit')
+    return ok(not why)
+K_HARNESSES.append('k_sqlite_mode')
+
+
+def k_pg_mode(ser: bool, opt: bool, imm: bool, first: bool, lockreq: bool, mid_commit: bool) -> bool:
+    """
+    post: _
+    """
+    try:
+        db, m = _k_session('pg', ser, opt, imm, first, lockreq, mid_commit)
+    except Exception:
+        F.reset_session_state(DBS['pg'])
+        return ok(False)
+    why = []
+    LAST.clear(); LAST.update(why=why)
+    main = [e for e in rec.log if e.con is not None]
+    session_tx = ser or imm or not opt
+    need = {'s1': session_tx, 's2': session_tx or lockreq, 'w': True}
+    serial = lambda s: s.strip() == 'SET TRANSACTION ISOLATION LEVEL SERIALIZABLE'
+    for k in m:
+        n = m[k]
+        if need[k] and rec.snap[n][1]: why.append('autocommit on at %s' % k)
+        if ser and _tx_open_events(main, n, serial) is None: why.append('%s in a transaction that is not serializable' % k)
+    # once a statement ran with autocommit off, it stays off until the commit/rollback that ends the transaction
+    open_since = None
+    for e in main:
+        auto = rec.snap[e.n][1]
+        if open_since is not None:
+            if auto: why.append('autocommit switched on at #%d inside the transaction open since #%d' % (e.n, open_since))
+            if e.op in ('commit', 'rollback'): open_since = None
+        elif e.op == 'execute' and not auto and (e.detail or '') != 'DISCARD ALL' and e.n in (m.get('s1'), m['s2'], m['w']) \
+                and need[[k for k in m if m[k] == e.n][0]]:
+            open_since = e.n
+    if not [e for e in main if e.op == 'commit']: why.append('no commit')
+    return ok(not why)
+K_HARNESSES.append('k_pg_mode')
+
+
+def k_builder(nw: bool, sk: bool, lim: bool, dialect: int) -> bool:
+    """
+    pre: not (nw and sk)
+    pre: 0 <= dialect <= 2
+    post: _
+    """
+    from pony.orm import sqlbuilding
+    from pony.orm.dbproviders import sqlite as ps, postgres as ppg
+    sections = [['ALL', ['COLUMN', 'x', 'id'], ['COLUMN', 'x', 'a']], ['FROM', ['x', 'TABLE', 'T']],
+                ['WHERE', ['EQ', ['COLUMN', 'x', 'id'], ['VALUE', 1]]], ['ORDER_BY', ['VALUE', 1]]]
+    if lim: sections.append(['LIMIT', 1])
+    if dialect == 0: cls, prov = sqlbuilding.SQLBuilder, DBS['pg'].provider
+    elif dialect == 1: cls, prov = ppg.PGSQLBuilder, DBS['pg'].provider
+    else: cls, prov = ps.SQLiteBuilder, DBS['sqlite'].provider
+    plain = cls(prov, ['SELECT'] + sections).sql
+    sql = cls(prov, ['SELECT_FOR_UPDATE', nw, sk] + sections).sql
+    if dialect == 2:
+        return ok(sql == plain and 'FOR UPDATE' not in sql)
+    # the lock clause is the last line, spelled exactly as requested, and nothing else changes
+    want = 'FOR UPDATE' + (' NOWAIT' if nw else '') + (' SKIP LOCKED' if sk else '')
+    return ok(sql == plain + '\n' + want and 'FOR UPDATE' not in plain)
+K_HARNESSES.append('k_builder')
